@@ -315,12 +315,61 @@ def deep_chain(asm, acc, seed, idx, depth=60):
         shutil.rmtree(root, ignore_errors=True)
 
 
+def late_files(asm, acc, seed, idx):
+    """history in one interpreter: an include that was missing is created; a same-named file appears earlier on the search path.
+    Each build is the splice of what is on disk at that moment"""
+    rng = random.Random('c14-late-%d-%d' % (seed, idx))
+    root = tempfile.mkdtemp(prefix='bbv-c14-')
+    try:
+        a, b, src = (os.path.join(root, n) for n in ('zz_first', 'aa_second', 'src'))
+        for d in (a, b, src):
+            os.makedirs(d)
+        main = os.path.join(src, 'main.asm')
+        v1, v2, v3 = rng.sample(range(1, 200), 3)
+        with open(main, 'w') as f:
+            f.write('include late.asm\ninclude defs.asm\naddi x1, x0, LATE\naddi x2, x0, DEFS\n')
+        with open(os.path.join(b, 'defs.asm'), 'w') as f:
+            f.write('DEFS = %d\n' % v1)
+        case = {'seed': seed, 'idx': idx, 'late': True}
+        steps = []
+        o = monitors.observe(asm, main, False, include_dirs=[a, b], tap=False)
+        steps.append(('late.asm missing', o, None))
+        with open(os.path.join(src, 'late.asm'), 'w') as f:
+            f.write('LATE = %d\n' % v2)
+        o = monitors.observe(asm, main, False, include_dirs=[a, b], tap=False)
+        steps.append(('late.asm created next to main.asm', o, (v2, v1)))
+        with open(os.path.join(a, 'defs.asm'), 'w') as f:
+            f.write('DEFS = %d\n' % v3)
+        o = monitors.observe(asm, main, False, include_dirs=[a, b], tap=False)
+        steps.append(('defs.asm added to the first -i directory', o, (v2, v3)))
+        os.unlink(os.path.join(a, 'defs.asm'))
+        o = monitors.observe(asm, main, False, include_dirs=[a, b], tap=False)
+        steps.append(('defs.asm removed from the first -i directory again', o, (v2, v1)))
+        for what, o, want in steps:
+            acc['n'] += 1
+            acc['ctr']['late_file_steps'] += 1
+            acc['ntkeys'].add(core.ckey('late', seed, idx, what))
+            if want is None:
+                if o.ok:
+                    core.add_viol(acc, 'history step "%s": the program assembles although late.asm does not exist' % what, case, {})
+                continue
+            exp = asm.assemble('addi x1, x0, %d\naddi x2, x0, %d\n' % want)
+            if not o.ok:
+                core.add_viol(acc, 'history step "%s": refused (%s); the files on disk splice to addi x1, x0, %d / addi x2, x0, %d' % (what, o.exc['msg'][:80], want[0], want[1]), case, {})
+            elif o.out != bytes(exp):
+                core.add_viol(acc, 'history step "%s": output %s; the files on disk splice to addi x1, x0, %d / addi x2, x0, %d = %s' % (what, o.out.hex(), want[0], want[1], bytes(exp).hex()), case, {})
+    finally:
+        shutil.rmtree(root, ignore_errors=True)
+
+
 def run_shard(sh, deadline):
     asm = core.load_asm()
     acc = core.new_acc()
     for idx in range(sh['lo'], sh['hi']):
         if idx % 80 == 13:
             deep_chain(asm, acc, sh['seed'], idx)
+        if idx % 40 == 7:
+            late_files(asm, acc, sh['seed'], idx)
         run_tree(asm, acc, sh['seed'], idx, sh['ncli'] if idx % sh['cli_every'] == 0 else 0)
         if time.time() > deadline:
             acc['truncated'] += 1
@@ -351,7 +400,9 @@ def gates(acc, tier):
 def replay(case):
     asm = core.load_asm()
     acc = core.new_acc()
-    if case.get('deep'):
+    if case.get('late'):
+        late_files(asm, acc, case['seed'], case['idx'])
+    elif case.get('deep'):
         deep_chain(asm, acc, case['seed'], case['idx'])
     else:
         run_tree(asm, acc, case['seed'], case['idx'], 2)
